@@ -133,7 +133,7 @@ def check_c07(ctx):
             files["f%d.sysl" % i] = imps + "\nApp%d:\n    Ep:\n        step %d\nShared:\n    Log:\n        visited %d\n" % (i, i, i)
         main = "import f0\nimport f1\nimport f%d\n\nRoot:\n    Ep:\n        ...\n" % (n - 1)
         sources.append({"decls": [], "text": main, "files": files})
-    groups = 4 if quick else 12
+    groups = 4 if quick else 8
     scn = []
     for g in range(groups):
         part = sources[g::groups]
